@@ -278,7 +278,7 @@ def r4_select(src, log):
             o = s[k + 5]
             c = m[o]
             oi, ci = k + 5, s.index(c)
-            edits.append((toks[i].start, toks[o].end, "match nondet_choice() {"))
+            hdr_edit = (toks[i].start, toks[o].end)
             j = oi + 1
             arm = 0
             while j < ci:
@@ -306,7 +306,8 @@ def r4_select(src, log):
                 if j < ci and toks[s[j]].text == ",":
                     j += 1
                 arm += 1
-            # default arm to keep the match exhaustive
+            # default arm to keep the match exhaustive (nondet_choice(n) ensures r < n)
+            edits.append((hdr_edit[0], hdr_edit[1], "match nondet_choice(%d) {" % arm))
             edits.append((toks[c].start, toks[c].end, "_ => { nondet_unreachable() } }"))
             log["R4"] = log.get("R4", 0) + 1
             log["R4.arms"] = arm
@@ -669,7 +670,14 @@ def _label_lines(block_lines, base_line, kind, default_prefix):
 def process_template(tpl_path: str, repo: str, variant: dict | None = None) -> UnitResult:
     """variant: optional {'ensures_false': fn_id} to build the vacuity canary for one function"""
     variant = variant or {}
-    tpl = open(tpl_path).read().split("\n")
+    tpl = []
+    for raw in open(tpl_path).read().split("\n"):
+        im = re.match(r"^\s*//@include\s+(\S+)", raw)
+        if im:
+            inc = os.path.join(os.path.dirname(os.path.dirname(os.path.abspath(__file__))), im.group(1))
+            tpl.extend(open(inc).read().rstrip("\n").split("\n"))
+        else:
+            tpl.append(raw)
     res = UnitResult(lines=[])
     i = 0
     while i < len(tpl):
@@ -873,16 +881,16 @@ def _gen_function(kv, sections, repo, res: UnitResult, variant) -> list:
         elif sname == "loop":
             # after the k-th loop header: find in glines the k-th `loop`/`while` keyword line and insert after the keyword
             kth = int(sarg.split()[0])
-            inserts.append(("loop", kth, _label_lines(slines, sline, "loop", "%s.loop%d" % (fid, kth))))
+            inserts.append(("loop", kth, _label_lines(slines, sline, "loop", "%s.loop%d" % (fid, kth)), "optional" in sarg.split()))
         elif sname == "closure":
             kth = int(sarg.split()[0])
-            inserts.append(("closure", kth, _label_lines(slines, sline, "closure", "%s.closure%d" % (fid, kth))))
+            inserts.append(("closure", kth, _label_lines(slines, sline, "closure", "%s.closure%d" % (fid, kth)), "optional" in sarg.split()))
         elif sname in ("before", "after"):
-            mm = re.match(r"/((?:[^/\\]|\\.)*)/\s*(\d+)?", sarg)
+            mm = re.match(r"/((?:[^/\\]|\\.)*)/\s*(\d+)?\s*(optional)?", sarg)
             if not mm:
                 raise ExtractError("template: bad anchor %r" % sarg)
             inserts.append((sname, (mm.group(1).replace("\\/", "/"), int(mm.group(2) or 1)),
-                            _label_lines(slines, sline, "hint", "%s.hint" % fid)))
+                            _label_lines(slines, sline, "hint", "%s.hint" % fid), bool(mm.group(3))))
     # loops: find loop header positions in the (rewritten) body by tokens
     body_now = "\n".join(g.text for g in glines)
     btoks = lex(body_now); bm = match_brackets(btoks); bs = sig(btoks)
@@ -890,7 +898,14 @@ def _gen_function(kv, sections, repo, res: UnitResult, variant) -> list:
     closures = _closure_spans(btoks, bs, bm, 0, len(bs))
     # we insert text at byte offsets -> convert to (line, col) and split lines
     ins_at: list[tuple[int, list]] = []   # (byte offset in body_now, genlines)
-    for kind, arg, lab in inserts:
+    for kind, arg, lab, optional in inserts:
+        if optional:
+            absent = (kind == "loop" and arg > len(loops)) or (kind == "closure" and arg > len(closures)) or \
+                     (kind in ("before", "after") and
+                      sum(1 for g in glines if g.origin[0] == "src" and re.search(arg[0], g.text)) < arg[1])
+            if absent:
+                log.setdefault("optional_anchor_absent", []).append("%s %s" % (kind, arg))
+                continue
         if kind == "loop":
             if arg > len(loops):
                 raise ExtractError("anchor lost: loop #%d in %s" % (arg, fid))
